@@ -150,6 +150,10 @@ def run_case(versions: list[dict[str, str]], n: int, scheds: list[str], targets:
                 if p2["status"] is None or "connection with worker" in o2 or "Cannot connect to build worker" in o2:
                     run["edit_inconclusive"] = True
                 else:
+                    # snapshot of the cache exactly as the parallel run left it (before any sequential run repairs it)
+                    rev_cache = cache + ".rev"
+                    shutil.rmtree(rev_cache, ignore_errors=True)
+                    shutil.copytree(cache, rev_cache)
                     c2 = diag.compare(o2, seq1["out"], p2["status"], seq1["status"])
                     run["edit_par_equal"] = c2["equal"]
                     if not c2["equal"]:
@@ -172,7 +176,9 @@ def run_case(versions: list[dict[str, str]], n: int, scheds: list[str], targets:
                 if not run.get("edit_inconclusive"):
                     # revert run: hashes recorded by the parallel build for the EDITED state must not make modules look
                     # fresh now that the sources are back at the original state
-                    w3 = _cli(d, [*fl, "--cache-dir", cache, *targets], env_plain)
+                    rev_cache = cache + ".rev"
+                    w3 = _cli(d, [*fl, "--cache-dir", rev_cache if os.path.isdir(rev_cache) else cache, *targets], env_plain)
+                    shutil.rmtree(rev_cache, ignore_errors=True)
                     c4 = diag.compare(w3["out"] + w3["err"], out["seq0"]["out"], w3["status"], seq0["status"])
                     run["revert_warm_equal"] = c4["equal"]
                     if not c4["equal"]:
